@@ -35,11 +35,57 @@ LEVEL_NOTE_COMMON = (
     "Spec/Basic.lean is the reading of the documented constraint semantics. "
 )
 
+def scen_of(case):
+    import re
+    m = re.search(r"scen=([a-z:]+)", case.desc)
+    return m.group(1) if m else ""
+
+
+def panic_or(kinds_set, scen_prefixes):
+    """relevant = record kind in kinds_set, or a panic/hang of a case whose scenario belongs to the property"""
+    def rel(kind, rec, case):
+        if kind in kinds_set:
+            return True
+        if kind in ("panic", "nonterm", "hang"):
+            return any(scen_of(case).startswith(p) for p in scen_prefixes)
+        return False
+    return rel
+
+
+def c01_relevant(kind, rec, case):
+    return kind in ("sol", "asol", "partial")
+
+
+def c02_relevant(kind, rec, case):
+    if kind == "verdict":
+        return True
+    if kind == "sol" and rec.startswith("sol satisfy"):
+        return True  # "satisfiable" verdict of satisfy (the solution itself is also C01's concern)
+    if kind in ("nonterm", "panic", "hang"):
+        return scen_of(case).startswith("satisfy")
+    return False
+
+
+def c07_relevant(kind, rec, case):
+    return kind in ("sol", "verdict", "solset", "opt", "partial", "nonterm", "panic", "hang", "bad")
+
+
+def c10_relevant(kind, rec, case):
+    return kind != "branchviolation"
+
+
+def c11_relevant(kind, rec, case):
+    return kind in ("sol", "verdict", "solset", "subset", "opt", "partial", "nonterm", "panic", "hang", "bad")
+
+
+def c18_relevant(kind, rec, case):
+    return kind in ("branchviolation", "valsel", "partial", "nonterm", "hang") or (kind == "panic" and ("Decision" in rec or "brancher" in rec.lower() or "branching" in rec or "sparse_set" in rec or "random" in rec))
+
+
 PROPS = {
     "C01": {
         "streams": [
-            {"name": "answers", "mode": "answers", "quick": 400, "thorough": 12000,
-             "args": ["--mix", ALL_SCEN]},
+            {"name": "answers", "mode": "answers", "quick": 400, "thorough": 12000, "args": ["--mix", ALL_SCEN]},
         ],
         "relevant": c01_relevant,
         "level_text": "Proof: Lean theorems state that an accepted solution lies in the declared domains and satisfies every constraint under the Spec semantics (views, half/full reification), and that acceptance = membership in the verified oracle `solutions`. Tie to code: every solution handed out by satisfy / iterator / assumptions / optimise (result and callbacks) of the real solver on generated models is judged by that verified acceptor.",
@@ -55,10 +101,113 @@ PROPS = {
              "args": ["--mix", "satisfy=5,iterate=1,optimise=1,assume=1"]},
         ],
         "relevant": c02_relevant,
-        "level_text": "Proof: the oracle is exact (mem_solutions, solutions_eq_nil_iff), so an accepted Unsatisfiable verdict or posting error means the (prefix) model has no satisfying assignment, and a prefix-unsat model is unsat. Tie to code: every verdict of satisfy and every Err from post/add_clause on generated models is judged against the oracle; non-termination is observed as a poll cap.",
+        "level_text": "Proof: the oracle is exact (mem_solutions, solutions_eq_nil_iff), so an accepted Unsatisfiable verdict or posting error means the (prefix) model has no satisfying assignment, and a prefix-unsat model is unsat. Tie to code: every verdict of satisfy and every Err from post/add_clause on generated models is judged against the oracle; non-termination is observed as a poll cap / wall-clock cap.",
         "level_note": LEVEL_NOTE_COMMON + "Completeness (termination) of real CDCL with restarts/deletion is not a theorem; observed only.",
-        "assumptions": [
-            "termination is observed as: no solve exceeds 2,000,000 polls of the termination condition",
+        "assumptions": ["termination is observed as: no solve exceeds 2,000,000 polls of the termination condition and no case exceeds the stream timeout"],
+    },
+    "C03": {
+        "streams": [
+            {"name": "iterate", "mode": "answers", "quick": 300, "thorough": 8000,
+             "args": ["--mix", "iterate=4,iterprefix=1", "--maxproduct", "6000"]},
         ],
+        "relevant": panic_or({"solset", "subset", "bad", "partial"}, ["iterate", "iterprefix"]),
+        "level_text": "Proof: `iterate` models solution_iterator.rs (solve, yield, add blocking clause over all variables); theorem iterate_exact: for every sound+complete solve oracle the iteration is a permutation of the verified solution list (nothing missing/repeated/foreign), iterate_prefix for every prefix, blocking_sat: the blocking clause excludes exactly the yielded assignment. Tie to code: the real iterator is run to the end (and to random prefixes) and the reported list is accepted iff it is such a permutation (checkSolSet_perm).",
+        "level_note": LEVEL_NOTE_COMMON + "The theorem is relative to SolveSpec (= C01 + C02).",
+    },
+    "C04": {
+        "streams": [
+            {"name": "optimise", "mode": "answers", "quick": 400, "thorough": 10000, "args": ["--mix", "optimise=1"]},
+        ],
+        "relevant": panic_or({"opt", "improving", "sol", "partial", "verdict"}, ["optimise"]),
+        "level_text": "Proof: `lsu` models linear_sat_unsat.rs (cut objective <= best-1 as root clause, loop until unsat); theorems lsu_optimal / optimiseMin_optimal / optimiseMin_unsat_iff: for every sound+complete oracle the result is a solution of the original model that no solution beats, Unsatisfiable iff no solution; maximise_via_negation for the scaled(-1) objective. Tie to code: optimise() with both procedures, both directions and view objectives on generated models; result kind, optimum value (= verified `optimum`), every callback solution and strict improvement are judged.",
+        "level_note": LEVEL_NOTE_COMMON + "linear_unsat_sat.rs is tied by correspondence only (no Lean model of the root lower bound yet).",
+    },
+    "C05": {
+        "streams": [
+            {"name": "assume", "mode": "answers", "quick": 400, "thorough": 10000, "args": ["--mix", "assume=1"]},
+        ],
+        "relevant": panic_or({"asol", "averdict", "core", "conflicting", "sol", "verdict", "partial"}, ["assume"]),
+        "level_text": "Proof: checkCore_iff (accepted core <-> IsCore: every core predicate implied by the assumptions within the declared domains, model /\\ core inconsistent), core_refutes, withAtoms_sat; Atom.mutex models Predicate::is_mutually_exclusive_with arm by arm with mutex_iff (exactness over all integers). Tie to code: 1-3 assumption solves (all predicate kinds, duplicates, contradictory pairs, root-true/false) + a plain solve afterwards on one solver; every solution, verdict, core and conflicting-pair report is judged.",
+        "level_note": LEVEL_NOTE_COMMON,
+    },
+    "C07": {
+        "streams": [
+            {"name": "configs", "mode": "configs", "quick": 120, "thorough": 3000, "args": ["--nconfigs", "6", "--maxproduct", "6000"]},
+        ],
+        "relevant": c07_relevant,
+        "level_text": "Proof: the specification-level answers are functions of the model alone; accepted_sets_agree / accepted_optima_agree / iterate_config_free / optimise_config_free: any two accepted answers (or any two sound+complete solve procedures) agree on verdict, solution set (as permutation) and optimum. Tie to code: each generated model is solved under 6 option vectors (default, NoLearning, frequent restarts, database limits 0-5, both sortings, seeds, all brancher families) and every answer is judged against the oracle, hence pairwise equal.",
+        "level_note": LEVEL_NOTE_COMMON,
+    },
+    "C10": {
+        "streams": [
+            {"name": "history", "mode": "history", "quick": 500, "thorough": 12000, "args": []},
+        ],
+        "relevant": c10_relevant,
+        "level_text": "Correspondence-centred: random histories (3-10 operations: new variable, post, satisfy, assumptions +/- core, iterate k, optimise LSU/LUS) on one real solver under catch_unwind; every answer is judged by the verified acceptors against the model accumulated so far (posted constraints + blocking clauses + LSU cuts), any panic or hang is a violation. Lean: the acceptors' soundness theorems and the accumulated-model lemmas (solutions_addCons, more_constraints_fewer_solutions).",
+        "level_note": LEVEL_NOTE_COMMON + "No Lean automaton of CSPSolverState yet; the life-cycle is exercised, not proved.",
+        "level": "proof",
+    },
+    "C11": {
+        "streams": [
+            {"name": "interrupt", "mode": "interrupt", "quick": 150, "thorough": 3000, "args": []},
+        ],
+        "relevant": c11_relevant,
+        "level_text": "Fault enumeration over poll indices tied to the verified acceptors: for each model/procedure the number N of polls of an uninterrupted run is measured, then the run is repeated with should_stop first true at k in {0,1,2,N-1,N, random} (thorough: 40 more): any definitive answer given must be correct (oracle), a best-so-far solution must be a solution; then the same solver+brancher is asked again uninterrupted and must answer correctly. Lean: acceptor soundness; lsu_optimal shows a best-so-far incumbent is always a solution of the original model.",
+        "level_note": LEVEL_NOTE_COMMON,
+    },
+    "C12": {
+        "streams": [
+            {"name": "bounds", "mode": "bounds", "quick": 300, "thorough": 8000, "args": []},
+        ],
+        "relevant": panic_or({"bounds", "vbounds", "bad", "verdict"}, ["bounds"]),
+        "level_text": "Proof: bounds_enclose / view_bounds_enclose (accepted bounds enclose every solution), view_rule (AffineView bound rule with swap on negative scale is enclosing), more_constraints_fewer_solutions. Tie to code: after every posting step lower_bound/upper_bound of every variable and of random views and get_literal_value are read from the real solver: must enclose all oracle solutions, lie in the declared domain, be monotone along the sequence, and equal the view rule applied to the inner bounds.",
+        "level_note": LEVEL_NOTE_COMMON,
+    },
+    "C18": {
+        "streams": [
+            {"name": "branchers", "mode": "branchers", "quick": 700, "thorough": 14000, "args": ["--allow-subset-random", "1"]},
+        ],
+        "relevant": c18_relevant,
+        "level_text": "Correspondence: a checking wrapper (possible only through the Assignments re-export hook) around every built-in brancher during real solves: all 10x14 variable x value selector pairs are cycled deterministically, plus DynamicBrancher, AlternatingBrancher (4 strategies), AutonomousSearch, the default brancher; each proposed decision must be over one of the brancher's variables and currently unassigned, and `None` only when all its variables are fixed; reported solutions must be total. Lean: value-selector models with undecidedness theorems (Model/Branching.lean).",
+        "level_note": LEVEL_NOTE_COMMON,
+    },
+    "C08": {
+        "streams": [
+            {"name": "cumulative", "mode": "answers", "quick": 500, "thorough": 12000,
+             "args": ["--mix", "iterate=3,satisfy=1,optimise=1", "--kinds", "cumul,cumul,cumul,linle,impl,clause", "--maxproduct", "4000"]},
+            {"name": "cumulative-tap", "mode": "tap", "quick": 150, "thorough": 4000,
+             "args": ["--kinds", "cumul,cumul,linle"]},
+        ],
+        "relevant": panic_or({"solset", "subset", "sol", "verdict", "opt", "partial", "bad", "infer"}, ["iterate", "satisfy", "optimise", "tap"]),
+        "level_text": "Proof: cumulative_sat_iff — the executable test used by the oracle (load at every task start <= capacity, 0 <= capacity) is equivalent to the documented meaning (at EVERY integer time point the usages of the running tasks sum to at most the capacity) for non-negative usages; loadAt_drop_zero — zero-usage / zero-duration tasks never contribute. Tie to code: models built around cumulative constraints (durations 0-3, usages 0-3, capacity 0-4, negative / scaled / offset / sparse start times, half-reified) are iterated to completion under option sets drawn from all 144 CumulativeOptions combinations; each solution set must equal the oracle's; every explanation of every variant seen by the tap is checked by checkInference against the cumulative constraint.",
+        "level_note": LEVEL_NOTE_COMMON + "The incremental time-table maintenance is not modelled; it is tied only through answers and explanations.",
+    },
+    "C09": {
+        "streams": [
+            {"name": "reified", "mode": "answers", "quick": 500, "thorough": 12000,
+             "args": ["--mix", "iterate=3,satisfy=1,assume=1", "--kinds", "impl,impl,reif,reif,neg,linle,clause", "--maxproduct", "4000"]},
+        ],
+        "relevant": panic_or({"solset", "subset", "sol", "asol", "verdict", "averdict", "partial", "bad"}, ["iterate", "satisfy", "assume"]),
+        "level_text": "Proof: models of how the library builds reified constraints, proved equal to the documented meaning: reify_decomposition (reify = implied_by r /\ negation.implied_by not-r), negLinLe_sat (Inequality::negation is the complement), equals_decomposition, neg_eq_ne, neg_clause_conj, clause_implied_by, implied_sem / reif_sem (C01). Tie to code: every constraint kind under implied_by, every negatable kind under reify and negation() (also doubly negated), reification literal shared between constraints and fixed by other constraints either way; solution sets compared with the oracle.",
+        "level_note": LEVEL_NOTE_COMMON + "ReifiedPropagator's cached inconsistency / notify filtering is covered through answers and the tap, not by a Lean state machine yet.",
+    },
+    "C16": {
+        "streams": [
+            {"name": "big", "mode": "answers", "quick": 500, "thorough": 12000,
+             "args": ["--big", "60", "--mix", "satisfy=2,iterate=2,optimise=1", "--kinds", "linle,lineq,linne,times,div,abs,max,min,elem"]},
+            {"name": "bigbounds", "mode": "bounds", "quick": 200, "thorough": 4000,
+             "args": ["--big", "60", "--kinds", "linle,lineq,linne,times,div,abs,max,min,elem"]},
+        ],
+        "relevant": lambda kind, rec, case: kind != "branchviolation" and kind != "valsel",
+        "level_text": "Proof: the 32-bit instantiation of each arithmetic expression (view map, linear bound c-(lb_lhs-lb_i), products of bounds), written operation by operation as in the source, equals unbounded arithmetic exactly under explicit fits32 side conditions (…_exact) and provably differs beyond them (…_partial_witness, decide); div_ceil/div_floor and the view predicate translation are exact for all scales != 0 (View.gePred_sem / lePred_sem). Tie to code: models with huge-but-narrow domains (around ±2^31, ±2^30, ±2^16, ±46341) whose every view value fits i32 are solved with overflow checks on and compared with the oracle over unbounded Int. The full-strength property is FALSE for the unchanged tree (overflow panics at the sites listed as known findings); anything else — a wrong answer, a new file — is a violation.",
+        "level_note": LEVEL_NOTE_COMMON + "dev profile (overflow-checks on): wrap-around shows as a panic; silent wrap in release builds is the same arithmetic event.",
+    },
+    "C17": {
+        "streams": [
+            {"name": "tap", "mode": "tap", "quick": 500, "thorough": 12000, "args": []},
+        ],
+        "relevant": panic_or({"infer", "minfer", "nogood", "bad"}, ["tap"]),
+        "level_text": "Proof: checkInference_iff — the acceptor for an explanation (premises -> conclusion, or -> false) is equivalent to semantic entailment from the single tagged constraint within the declared domains, hence sound AND complete (never rejects a valid explanation); accepted_propagation / accepted_conflict / never_prunes_solution / accepted_model_inference. Tie to code (hook: explanation tap): every propagation (reason computed immediately, lazy reasons included), every reported conflict, every reason handed to conflict analysis later (explicit, lazily recomputed, implicit) and every learned nogood during real searches is recorded with the propagator's tag and judged; 'all reason predicates hold in the state in which the reason is given' is evaluated inside the hook.",
+        "level_note": LEVEL_NOTE_COMMON + "Enumeration limits trace acceptance to small domains; nogood-propagator reasons are judged against the whole model.",
     },
 }
